@@ -155,31 +155,64 @@ func c35(c *core.Ctx) {
 		}
 		c.Ob("C35.state", "server.session·activation state", c.P.Pos(activate.Pos()), readByGate, "fields written after successful verification in ActivateSession: ["+strings.Join(names, ", ")+"]; read by the session gate: "+boolStr(readByGate)+" "+which+" — a session that was created but never activated is indistinguishable from an activated one")
 	}
-	// activate
+	// activate (the lookup and the verification may live in a private helper whose nil error implies both)
 	{
-		var vcall ssa.CallInstruction
-		for _, call := range ssax.CallsTo(activate, verifySess) {
-			vcall = call
+		established := map[*ssa.Function]bool{}
+		holdsAt := func(at ssa.Instruction, g *ssa.Function) bool {
+			for _, call := range ssax.Calls(g) {
+				if h := call.Common().StaticCallee(); h != nil && established[h] && okEdge(at, call) {
+					return true
+				}
+			}
+			verified := false
+			for _, call := range ssax.CallsTo(g, verifySess) {
+				if okEdge(at, call) {
+					verified = true
+				}
+			}
+			found := false
+			for _, lk := range sessionLookups(c, g) {
+				if nonNilFact(at, lk.(ssa.Value)) {
+					found = true
+				}
+			}
+			return verified && found
 		}
-		lookups := sessionLookups(c, activate)
-		okAll := vcall != nil && len(lookups) > 0
+		for round := 0; round < 2; round++ {
+			for _, g := range libFns(c, "server") {
+				if established[g] || g == activate || g.Parent() != nil || len(g.Blocks) == 0 {
+					continue
+				}
+				res := g.Signature.Results()
+				if res.Len() == 0 || res.At(res.Len()-1).Type().String() != "error" {
+					continue
+				}
+				all, n := true, 0
+				for _, r := range ssax.Returns(g) {
+					if !ssax.IsNil(ssax.RetVal(r, res.Len()-1)) {
+						continue
+					}
+					n++
+					if !holdsAt(r, g) {
+						all = false
+					}
+				}
+				if all && n > 0 {
+					established[g] = true
+				}
+			}
+		}
+		okAll, n := true, 0
 		for _, ret := range ssax.Returns(activate) {
 			if !ssax.IsNil(ssax.RetVal(ret, 1)) {
 				continue
 			}
-			if vcall == nil || !okEdge(ret, vcall) {
-				okAll = false
-			}
-			g := false
-			for _, lk := range lookups {
-				if nonNilFact(ret, lk.(ssa.Value)) {
-					g = true
-				}
-			}
-			if !g {
+			n++
+			if !holdsAt(ret, activate) {
 				okAll = false
 			}
 		}
+		okAll = okAll && n > 0
 		c.Ob("C35.activate", fname(activate)+"·success only after lookup and signature verification", c.P.Pos(activate.Pos()), okAll, "success return dominated by session != nil and VerifySessionSignature err == nil: "+boolStr(okAll))
 	}
 	// close
